@@ -34,7 +34,7 @@ def header_lists():
     ]
 
 
-def view_fn(iface):
+def view_fn(iface, form_first=False):
     """a view that returns everything the request exposes, as JSON-able data"""
     def common_part(request, body, js, form):
         return {
@@ -61,10 +61,14 @@ def view_fn(iface):
 
         @W.request_response
         def view(request):
+            def fform():
+                return [[k, v if isinstance(v, str) else ["file", v.filename, v.content_type, v.read().decode("latin-1")]]
+                        for k, v in request.form.multi_items()]
+            form = outcome(fform) if form_first else None    # streamed parsing: the chunks reach the multipart decoder
             body = outcome(lambda: request.body.decode("latin-1"))
             js = outcome(lambda: request.json)
-            form = outcome(lambda: [[k, v if isinstance(v, str) else ["file", v.filename, v.content_type, v.read().decode("latin-1")]]
-                                    for k, v in request.form.multi_items()])
+            if not form_first:
+                form = outcome(fform)
             data = common_part(request, body, js, form)
             request.close()
             return W.JSONResponse(data)
@@ -94,7 +98,10 @@ def view_fn(iface):
             for k, v in (await request.form).multi_items():
                 out.append([k, v if isinstance(v, str) else ["file", v.filename, v.content_type, (await v.aread()).decode("latin-1")]])
             return out
-        body, js, form = await aout(fbody), await aout(fjson), await aout(fform)
+        form = await aout(fform) if form_first else None
+        body, js = await aout(fbody), await aout(fjson)
+        if not form_first:
+            form = await aout(fform)
         data = common_part(request, body, js, form)
         await request.close()
         return A.JSONResponse(data)
@@ -172,6 +179,7 @@ def run(ctx):
     tlc.check_coverage(res, ["Observe"])
     g = graph.Graph.load(res.dot)
     views = {"wsgi": view_fn("wsgi"), "asgi": view_fn("asgi")}
+    views_ff = {"wsgi": view_fn("wsgi", True), "asgi": view_fn("asgi", True)}
     import json
     n = 0
     for nid in g.terminal():
@@ -182,11 +190,15 @@ def run(ctx):
         hdrs = [(k, VALUES[v] if VALUES[v] != "@LEN" else str(len(body))) for k, v in rq["headers"]]
         cuts = [[body], [body[i:i + 1] for i in range(len(body))], [body[:len(body) // 2], b"", body[len(body) // 2:]]][:(1 if not body else 3)]
         obs = {}
+        form_first = any(v == "ctm" for _, v in rq["headers"]) and bool(body)
+        if form_first:    # every two-piece cut of a multipart body, parsed as a stream
+            cuts = cuts + [[body[:k], body[k:]] for k in range(1, len(body))]
+        use = views_ff if form_first else views
         for ci, chunks in enumerate(cuts):
             for iface in ("wsgi", "asgi"):
                 req = servers.Req(method=rq["method"], path=PATHS[rq["path"]], query=QUERIES[rq["query"]], headers=hdrs, chunks=chunks,
                                   server=("srv.example", 8080), client=("10.1.2.3", 5555))
-                r = servers.wsgi_call(views[iface], req) if iface == "wsgi" else servers.asgi_call(views[iface], req)
+                r = servers.wsgi_call(use[iface], req) if iface == "wsgi" else servers.asgi_call(use[iface], req)
                 ctx.count()
                 ctx.traces_validated += 1
                 try:
@@ -222,7 +234,7 @@ def run(ctx):
                 ctx.violation(dict(case, compared=list(bad_parsed[0])), want_parsed[1], o.get(want_parsed[0]),
                               "both stacks agree with each other but the decoded %s is not what the request carries" % want_parsed[0])
             elif "exc" not in ref and (ref["headers"] != want_headers or ref["method"] != view["method"] or
-                                       ref["body"] != ["ok", body.decode("latin-1")]):
+                                       (ref["body"] != ["ok", body.decode("latin-1")] and not form_first)):
                 ctx.violation(case, {"headers": want_headers, "method": view["method"], "body_len": len(body)},
                               {"headers": ref.get("headers"), "method": ref.get("method"), "body": ref.get("body")},
                               "both stacks agree with each other but not with the abstract request view")
